@@ -31,7 +31,9 @@ TARGETS = [
     dict(coq="src_op_push_data", file="bitcoinutils/script.py", qual="Script._op_push_data", params=[("data", "hexbytes")],
          ret="bytes", fallback="fun data => of_option (Script.op_push_data data)"),
     dict(coq="src_push_integer", file="bitcoinutils/script.py", qual="Script._push_integer", params=[("integer", "int")],
-         ret="bytes", fallback="fun n => of_option (Script.push_integer n)"),
+         ret="bytes", fallback="fun n => of_option (Script.push_integer n)",
+         forbid=("py_rshift", "py_mod"),   # its tie proof reasons about `integer & (1 << k)` only; other bit tricks: say so, do not guess
+         ),
     dict(coq="src_sequence_init", file="bitcoinutils/transactions.py", qual="Sequence.__init__",
          params=[("seq_type", "int"), ("value", "int"), ("is_type_block", "bool")], ret="attrs", init=True,
          initattrs=[("seq_type", "int"), ("value", "int"), ("is_type_block", "bool")],
@@ -163,8 +165,16 @@ class Tr:
                 bit = {ast.BitAnd: "Z.land", ast.BitOr: "Z.lor", ast.BitXor: "Z.lxor"}
                 if op in bit:
                     return pre, "(%s %s %s)" % (bit[op], a, b), "int"
+                # a shift by, or a division by, a literal that cannot raise is total
+                lit = e.right.value if isinstance(e.right, ast.Constant) and isinstance(e.right.value, int) and not isinstance(e.right.value, bool) else None
+                if lit is not None and lit >= 0 and op in (ast.LShift, ast.RShift):
+                    return pre, "(%s %s %s)" % ("Z.shiftl" if op is ast.LShift else "Z.shiftr", a, b), "int"
+                if lit is not None and lit > 0 and op in (ast.FloorDiv, ast.Mod):
+                    return pre, "(%s %s %s)" % (a, "/" if op is ast.FloorDiv else "mod", b), "int"
                 part = {ast.LShift: "py_lshift", ast.RShift: "py_rshift", ast.FloorDiv: "py_floordiv", ast.Mod: "py_mod"}
                 if op in part:
+                    if part[op] in self.t.get("forbid", ()):
+                        raise Unsupported("%s is outside the fragment this function's tie proof decides" % part[op])
                     t = self.fresh()
                     return pre + [("opt", t, "%s %s %s" % (part[op], a, b))], t, "int"
             raise Unsupported("binary op %s on %s,%s" % (op.__name__, ta, tb))
@@ -213,6 +223,14 @@ class Tr:
             texts = [self.truthy(a, ta) for _, a, ta in parts]
             j = " && " if isinstance(e.op, ast.And) else " || "
             return parts[0][0], "(" + j.join(texts) + ")", "bool"
+        if isinstance(e, ast.IfExp):
+            pc, c, tc = self.expr(e.test)
+            p1, a, ta = self.expr(e.body); p2, b, tb = self.expr(e.orelse)
+            if p1 or p2:
+                raise Unsupported("partial operation inside a conditional expression")
+            if ta != tb:
+                raise Unsupported("conditional expression of types %s / %s" % (ta, tb))
+            return pc, "(if %s then %s else %s)" % (self.truthy(c, tc), a, b), ta
         if isinstance(e, ast.Subscript):
             p, a, ta = self.expr(e.value)
             if ta != "bytes":
@@ -322,6 +340,11 @@ class Tr:
             if tn != "int": raise Unsupported("to_bytes length")
             t = self.fresh()
             return p + q + [("opt", t, "py_to_bytes_le %s %s" % (a, n))], t, "bytes"
+        # b.hex() on bytes: hex transport, the identity on the byte string
+        if isinstance(f, ast.Attribute) and f.attr == "hex" and not e.args and not e.keywords:
+            p, a, ta = self.expr(f.value)
+            if ta != "bytes": raise Unsupported("hex() of %s" % ta)
+            return p, a, "bytes"
         if isinstance(f, ast.Attribute) and f.attr == "bit_length" and not e.args:
             p, a, ta = self.expr(f.value)
             if ta != "int": raise Unsupported("bit_length of %s" % ta)
@@ -417,6 +440,8 @@ class Tr:
             pre, c, tc = self.expr(s.test)
             return self.wrap(pre, "if %s then\n%s\nelse Raise" % (self.truthy(c, tc), self.stmts(rest)))
         if isinstance(s, (ast.Assign, ast.AnnAssign, ast.AugAssign)):
+            if isinstance(s, ast.Assign) and len(s.targets) == 1 and isinstance(s.targets[0], ast.Tuple):
+                return self.tuple_assign(s, rest)
             if isinstance(s, ast.Assign):
                 if len(s.targets) != 1: raise Unsupported("multiple targets")
                 tgt, val = s.targets[0], s.value
@@ -448,6 +473,42 @@ class Tr:
             self.env = saved
             return self.wrap(pre, "if %s then\n%s\nelse\n%s" % (self.truthy(c, tc), th, el))
         raise Unsupported("statement %s" % type(s).__name__)
+
+
+def _tuple_assign(self, s, rest):
+    """a, b = e1, e2   (right-hand sides first, then the bindings)   and   a, b = <pair-valued expression>"""
+    tg = s.targets[0].elts
+    keys = []
+    for t in tg:
+        if isinstance(t, ast.Name): keys.append(t.id)
+        elif isinstance(t, ast.Attribute) and isinstance(t.value, ast.Name) and t.value.id == "self": keys.append("self." + t.attr)
+        else: raise Unsupported("assignment target")
+    saved = dict(self.env)
+    if isinstance(s.value, ast.Tuple):
+        if len(s.value.elts) != len(tg): raise Unsupported("tuple arity")
+        pre = []; vals = []
+        for v in s.value.elts:
+            p, a, ta = self.expr(v)
+            if ta not in ("int", "bytes", "bool"): raise Unsupported("assignment of %s" % ta)
+            pre += p; vals.append((a, ta))
+        tmps = [(self.fresh("u"), a, ta) for a, ta in vals]
+        lets = "".join("let %s := %s in\n" % (t, a) for t, a, _ in tmps)
+        for k, (t, _, ta) in zip(keys, tmps):
+            ident = self.bind(k, t, ta)
+            lets += "let %s := %s in\n" % (ident, t)
+        body = self.stmts(rest)
+        self.env = saved
+        return self.wrap(pre, lets + body)
+    pre, a, ta = self.expr(s.value)
+    if ta != "int*int" or len(keys) != 2:
+        raise Unsupported("unpacking of %s" % ta)
+    i1 = self.bind(keys[0], "", "int"); i2 = self.bind(keys[1], "", "int")
+    body = self.stmts(rest)
+    self.env = saved
+    return self.wrap(pre, "let '(%s, %s) := %s in\n%s" % (i1, i2, a, body))
+
+
+Tr.tuple_assign = _tuple_assign
 
 
 def copy_load(t):
